@@ -1,10 +1,38 @@
 import CoxeterVerif.Driver.Proto
+import CoxeterVerif.Model.Polygon
+import CoxeterVerif.Spec.Planar
 
 namespace OpsC04
+
+def rdM3 {α} [Codec α] (c : Ctx) : Rd (M3 α) := do
+  let a ← Rd.sc c; let b ← Rd.sc c; let d ← Rd.sc c
+  let e ← Rd.sc c; let f ← Rd.sc c; let g ← Rd.sc c
+  let h ← Rd.sc c; let i ← Rd.sc c; let j ← Rd.sc c
+  pure ⟨a, b, d, e, f, g, h, i, j⟩
 
 /-- driver ops of C04. `none` = unknown op. -/
 def run (α : Type) [Scalar α] [Codec α] (op : String) (c : Ctx) : Option (Rd String) :=
   match op with
+  | "polygon.measures" => some do
+      -- in: verts, normal, R, R2 ; out: signedArea area perimeter centroid(3) ix iy ixy polar inertia(9)
+      let vs : List (V3 α) ← Rd.list c (Rd.v3 c)
+      let n : V3 α ← Rd.v3 c
+      let R : M3 α ← rdM3 c
+      let R2 : M3 α ← rdM3 c
+      let m := Poly2.planarMoments vs R
+      pure s!"{Out.sc (Poly2.signedArea vs n)} {Out.sc (Poly2.area vs n)} {Out.sc (Poly2.perimeter vs)} {Out.v3 (Poly2.centroid vs n R)} {Out.sc m.1} {Out.sc m.2.1} {Out.sc m.2.2} {Out.sc (Poly2.polarMoment vs R)} {Out.m3 (Poly2.inertiaTensor vs n R R2)}"
+  | "polygon.rational" => some do
+      -- rational part only (usable in Q mode when n = ±z and R is a signed permutation):
+      -- in: verts, normal, R ; out: signedArea centroid(3) ix iy ixy
+      let vs : List (V3 α) ← Rd.list c (Rd.v3 c)
+      let n : V3 α ← Rd.v3 c
+      let R : M3 α ← rdM3 c
+      let m := Poly2.planarMoments vs R
+      pure s!"{Out.sc (Poly2.signedArea vs n)} {Out.v3 (Poly2.centroid vs n R)} {Out.sc m.1} {Out.sc m.2.1} {Out.sc m.2.2}"
+  | "spec.planar" => some do
+      -- in: triangles (xy used) ; out: area first0 first1 second00 second11 second01
+      let Ts : List (Tri α) ← Rd.list c (Rd.tri c)
+      pure s!"{Out.sc (Spec2.area Ts)} {Out.sc (Spec2.first Ts 0)} {Out.sc (Spec2.first Ts 1)} {Out.sc (Spec2.second Ts 0 0)} {Out.sc (Spec2.second Ts 1 1)} {Out.sc (Spec2.second Ts 0 1)}"
   | _ => none
 
 end OpsC04
